@@ -151,22 +151,26 @@ func s1(w *World, r *Report) {
 		if fn == nil {
 			continue
 		}
-		vs := w.callsTo(fn, fref{"node", "", "validateTrx"})
-		rs := w.callsTo(fn, fref{"node", "", "runTrx"})
 		key := refStr(ref) + ":validate-before-run"
-		if len(vs) != 1 || len(rs) != 1 {
-			r.Violate("S-1", key, fmt.Sprintf("expected one validateTrx and one runTrx call (found %d/%d)", len(vs), len(rs)), nil, fnSite(w, fn))
-			continue
-		}
-		ok := sameValue(vs[0].Common().Args[0], rs[0].Common().Args[0]) && w.nilTestAt(callValue(vs[0]), rs[0].Block()) == -1
-		r.Check(ok, "S-1", key, "runTrx executes only on the branch where validateTrx returned nil, for the same context", "runTrx is reachable although validateTrx failed (or for another context)", site(w, vs[0]), site(w, rs[0]))
+		ok, whyVR := w.validateBeforeRun(fn)
+		r.Check(ok, "S-1", key, "runTrx executes only on the branch where validateTrx returned nil, for the same context", "runTrx is reachable although validateTrx failed (or for another context): "+whyVR, fnSite(w, fn))
 		// and nothing else changes state for a transaction whose validation failed: the
 		// claimed sender of a wrongly signed transaction is only a claim
 		{
 			effEv := func(in ssa.Instruction) string {
 				if c, isC := in.(ssa.CallInstruction); isC {
-					if cal := c.Common().StaticCallee(); cal != nil && cal.Name() == "validateTrx" {
-						return ""
+					if cal := c.Common().StaticCallee(); cal != nil {
+						if cal.Name() == "validateTrx" {
+							return ""
+						}
+						// a helper that contains the validation is walked in line
+						if w.InModule(cal) && cal != fn {
+							for _, g := range w.withModuleCallees(cal, 2) {
+								if len(w.callsTo(g, fref{"node", "", "validateTrx"})) > 0 {
+									return ""
+								}
+							}
+						}
 					}
 				}
 				if e := w.effectOf(in); e != nil {
@@ -177,7 +181,9 @@ func s1(w *World, r *Report) {
 			fe := w.newFactEval(nil, AR(`^node\.validateTrx\(.*\)$`, "!=", "^nil$"))
 			saved := w.branchMarkers
 			w.branchMarkers = false
+			w.enumDepth = 3
 			ps, complete := w.enumPaths(fn, fe.eval, effEv, 4000)
+			w.enumDepth = 0
 			w.branchMarkers = saved
 			bad := ""
 			for _, p := range ps {
